@@ -26,6 +26,14 @@ class GFA2ToGFA1:
         "Conversion of segment line from GFA2 to GFA1 failed\n"+
         "Name or sequence not compatible with GFA1\n"+
         "Segment line: {}\n".format(str(self)))
+    if slen_tag == "LN" and not gfapy.is_placeholder(a[2]) and \
+        self.slen != len(a[2]):
+      # in GFA1 the LN tag is the length of the sequence
+      raise gfapy.RuntimeError(
+        "Conversion of segment line from GFA2 to GFA1 failed\n"+
+        "The length {} differs from the length of the sequence ({})\n".format(
+          self.slen, len(a[2]))+
+        "Segment line: {}\n".format(str(self)))
     a.append(gfapy.Field._to_gfa_tag(self.slen, slen_tag, datatype = "i"))
     for fn in self.tagnames:
       a.append(self.field_to_s(fn, tag = True))
